@@ -60,6 +60,10 @@ CATALOGUE = [
     ("arrnode", "Shaped", "*v a"),
     ("union", [("arrnode", "Float", "a b"), ARR("a")]),
     ("tuple", [("arrnode", "Float", "a"), ("int",)]),
+    # a STRUCTURED PyTree inside the leaf type (its values are always 2-tuples, so the name means one structure):
+    # trying non-leaf nodes against it while flattening must not leave the name bound to their structure
+    ("tuple", [("spytree", ARR("a"), "C", 2), ARR("b")]),
+    ("tuple", [("spytree", ("int",), "C", 2), ("str",)]),
 ]
 
 
@@ -118,6 +122,8 @@ def leaf_gen(L, single, variadic):
             return None if rng.random() < 0.3 else mk(rng, L[1])
         if k == "arr":
             return arr_for(rng, L[2], L[1])
+        if k == "spytree":
+            return tuple(mk(rng, L[1]) for _ in range(L[3]))
         if k == "arrnode":
             return LT.NodeArr(arr_for(rng, L[2], L[1]), rng.choice((0, 1)))
         raise AssertionError(L)
@@ -213,9 +219,10 @@ def run_case(rec, rng, rngkey=None):
         rec.violation("verdict", desc, f"PyTree[{desc['L']}] on {desc['tree']}: model {mv} (leaf #{kfail} fails) real {got}", mechanism=mech)
         return
     rs, rv, rt = b
+    ms, mstructs = LT.split_structs(ms)
     es, ev = M.transcript(ms, mvv)
     rec.count("bindings_compared")
-    if rs != es or rv != ev or rt:
+    if rs != es or rv != ev or sorted(rt) != sorted(mstructs):
         rec.violation("bindings", desc, f"after verdict {got}: model bindings {es},{ev}; real {rs},{rv},{rt}", mechanism="bindings-after-" + got)
         return
     rec.count("law.bare")
